@@ -59,12 +59,51 @@ def run(ctx):
     rr, ff = apath(r0)
     if rr.k == "arg" and len(ff) == 1:
         ansi_field = ff[0]
+    coded = None
+    if ansi_field is None:
+        try:
+            coded = common.coded_bool_field(prog, ansi_getter)       # the switch kept as a private two-variant enum
+        except Exception:
+            coded = None
+        if coded is not None:
+            ansi_field = coded[0]
     if ansi_field is None:
         r1.undecidable("ansi-getter", "get_ansi_encoding does not return a plain field: %r" % (r0,), common.fn_line(prog, ansi_getter))
+    elif coded is not None:
+        r1.ok("ansi-getter", "get_ansi_encoding() = (self.%s is variant #%d), and the setter stores that variant exactly for `true` (getter ∘ setter = identity)" % coded)
     else:
         r1.ok("ansi-getter", "get_ansi_encoding() = self.%s" % ansi_field)
+    rewrite = None
+    coded_atom = None
+    if coded is not None:
+        F_, kt_ = coded
+
+        def _cmp_k(x):
+            x = strip_refs(x)
+            if x.k == "bin" and x.a[0] == "Eq":
+                sides = [strip_refs(x.a[1]), strip_refs(x.a[2])]
+                fl = [y for y in sides if y.k == "discr" and self_path(y.a[0]) == (F_,)]
+                ot = [y for y in sides if y not in fl]
+                if len(fl) == 1 and len(ot) == 1:
+                    return common._variant_index(prog, ot[0])
+            return None
+
+        def coded_atom(x):
+            return _cmp_k(x) == kt_
+
+        def rewrite(d):
+            k_ = _cmp_k(d)
+            if k_ is not None and k_ != kt_:
+                from engine.mir import E as _E
+                return _E("un", "Not", _E("bin", "Eq", _E("discr", _E("field", _E("arg", 1), F_)), _E("const", ("int", kt_))))
+            return d
+        for (i, j, s_) in b.stmts():
+            if s_["k"] == "assign":
+                for x in b.expr_rvalue(s_["rv"]).walk():
+                    if x.k == "discr" and self_path(x.a[0]) == (F_,):
+                        read.add(F_)
     atoms = sorted(read)
-    tt = truth_table(b, [(n, field_atom(n)) for n in atoms])
+    tt = truth_table(b, [(n, (coded_atom if (coded is not None and n == coded[0]) else field_atom(n))) for n in atoms], rewrite=rewrite)
     if tt is None or ansi_field not in atoms or len(atoms) != 2:
         r1.undecidable("mask", "cannot summarise the getter as a boolean function of two fields (reads %s)" % atoms, common.fn_line(prog, g))
     else:
